@@ -163,3 +163,20 @@ Fixpoint run (m : mode) (p : list instr) (s : state) : res state :=
 (* what a finished program shows: its output and its final variables *)
 Definition observe (r : res state) : res (list value * list value) :=
   match r with Ok s => Ok (out s, vars s) | Err e => Err e | OOM => OOM end.
+
+(* ---------- comparison helper for the generated correspondence files ---------- *)
+Fixpoint out_eqb (a b : list value) : bool :=
+  match a, b with
+  | [], [] => true
+  | x :: a', y :: b' => value_eqb x y && out_eqb a' b'
+  | _, _ => false
+  end.
+(* expected = Some output of a run that finished, None for a run that ended in an error;
+   0 = agree, 1 = disagree, 2 = outside the model *)
+Definition chk_run (m : mode) (p : list instr) (s : state) (expected : option (list value)) : Z :=
+  match observe (run m p s), expected with
+  | OOM, _ => 2
+  | Ok (o, _), Some e => if out_eqb o e then 0 else 1
+  | Err _, None => 0
+  | _, _ => 1
+  end.
